@@ -22,6 +22,7 @@ import (
 	"verifharness/props/c15"
 	"verifharness/props/c16"
 	"verifharness/props/c17"
+	"verifharness/props/c18"
 	"verifharness/props/c19"
 	"verifharness/props/c20"
 	"verifharness/props/copyx"
@@ -45,6 +46,7 @@ var table = map[string]func(lib.Opts){
 	"C15": c15.Run,
 	"C16": c16.Run,
 	"C17": c17.Run,
+	"C18": c18.Run,
 	"C19": c19.Run,
 	"C20": c20.Run,
 }
